@@ -6,8 +6,10 @@ package main
 import (
 	"fmt"
 	"go/ast"
+	"go/constant"
 	"go/token"
 	"go/types"
+	"os"
 	"sort"
 	"strings"
 	"time"
@@ -50,7 +52,7 @@ func (e *Encoder) call(fr *frame, ci ssa.CallInstruction) *SVal {
 	}
 	pos := ci.Pos()
 	if e.pure == 0 && len(e.inlineStack) == 0 && e.contract != nil && len(e.contract.AtCalls) > 0 {
-		e.atCall(fr, cm, ci)
+		e.atCall(fr, cm, ci, args)
 	}
 	if e.pure == 0 {
 		for _, a := range args {
@@ -82,7 +84,7 @@ func (e *Encoder) call(fr *frame, ci ssa.CallInstruction) *SVal {
 				} else if recv.Inner != nil {
 					rv = recv.Inner
 				} else {
-					rv = e.load(e.cur, e.cellAddr(recv.T, recv.Dyn))
+					rv = e.load(e.cur, e.boxAddr(recv.T, recv.Dyn))
 				}
 				return e.callStatic(fr, callee, append([]*SVal{rv}, args...), nil, ci, resT)
 			}
@@ -125,8 +127,11 @@ func (e *Encoder) call(fr *frame, ci ssa.CallInstruction) *SVal {
 	if r, ok := e.decodeFuncCall(fr, fv, args, ci, resT); ok {
 		return r
 	}
-	if cands := e.w.funcCandidates(cm.Signature()); len(cands) > 0 && len(cands) <= 8 {
+	if cands := e.w.funcCandidates(cm.Signature()); len(cands) > 0 && len(cands) <= 16 {
 		return e.dispatchFunc(fr, fv, cands, args, ci, resT)
+	}
+	if os.Getenv("BMCVC_DEBUG") != "" {
+		fmt.Fprintf(os.Stderr, "dynamic call %s: %d candidates %v\n", cm.Signature(), len(e.w.funcCandidates(cm.Signature())), e.w.funcCandidates(cm.Signature()))
 	}
 	return e.unmodelledCall(fr, "dynamic call "+cm.Value.Name(), args, ci, resT)
 }
@@ -208,7 +213,9 @@ func (e *Encoder) unmodelledCall(fr *frame, name string, args []*SVal, ci ssa.Ca
 	}
 	e.unmodelled[name] = true
 	// sound and weak: everything reachable may have changed
+	pre := e.cur
 	e.havocAll()
+	e.restoreReceiver(fr, pre, args)
 	if e.pure == 0 && e.contract != nil && len(e.contract.Assigns) > 0 && !e.contract.AssignsAny {
 		e.oblige("frame", "call:"+name, "call to an unmodelled function may modify anything", e.c.False(), ci.Pos())
 	}
@@ -240,7 +247,15 @@ func (e *Encoder) freshResult(prefix string, resT types.Type) *SVal {
 }
 
 func (e *Encoder) havocAll() {
+	old := e.cur
 	e.cur = &State{m: map[string]*Term{}, epoch: e.nextEpoch()}
+	// values boxed in interfaces and string contents are immutable
+	for cl, t := range old.m {
+		if strings.HasPrefix(cl, "box:") || cl == "mem:str" || strings.HasPrefix(cl, "glob:") {
+			// (package-level variables of the module are written only by initialisers: obligation of C19)
+			e.cur.m[cl] = t
+		}
+	}
 }
 
 // callPure evaluates a loop-free function on given arguments without
@@ -302,7 +317,10 @@ func (e *Encoder) applyContract(fr *frame, ct *Contract, args []*SVal, ci ssa.Ca
 	// havoc the frame
 	post := pre.clone()
 	if len(ct.Assigns) == 0 || ct.AssignsAny {
-		post = &State{m: map[string]*Term{}, epoch: e.nextEpoch()}
+		e.cur = pre
+		e.havocAll()
+		e.restoreReceiver(fr, pre, args)
+		post = e.cur
 		if e.pure == 0 && e.contract != nil && len(e.contract.Assigns) > 0 && !e.contract.AssignsAny {
 			e.oblige("frame", "call:"+cname, "callee without assigns clause may modify anything", c.False(), ci.Pos())
 		}
@@ -902,6 +920,8 @@ func (e *Encoder) nonNilError(prefix string) *SVal {
 	c := e.c
 	v := e.freshVal(prefix, types.Universe.Lookup("error").Type())
 	e.assumeFact(c.Not(c.Eq(v.Tag, c.Int(0))))
+	// every errors.New / fmt.Errorf result is a distinct new object
+	v.T = e.newAlloc()
 	return v
 }
 
@@ -1146,6 +1166,48 @@ func init() {
 			return env.mkBool(c.And(c.Eq(s.Base, t.Base), c.Eq(s.Off, c.BVBin("bvadd", t.Off, lo)), c.Eq(s.Len, c.BVBin("bvsub", hi, lo)),
 				c.BVCmp("bvsle", c.BVLit(0, 64), lo), c.BVCmp("bvsle", lo, hi), c.BVCmp("bvsle", hi, t.Cap)))
 		},
+		"holdsFunc": func(env *Env, n *ast.CallExpr, args []*SVal) *SVal {
+			// holdsFunc(x, "pkg.Name"): interface x wraps (a named function type holding) exactly that function
+			e := env.e
+			c := e.c
+			x := args[0]
+			name := ""
+			if cv, ok := env.info.Types[n.Args[1]]; ok && cv.Value != nil {
+				name = constant.StringVal(cv.Value)
+			}
+			var fn *ssa.Function
+			if k := strings.Index(name, "@"); k >= 0 {
+				// "pkgpath.init@file.go#k"
+				d := strings.LastIndex(name[:k], ".")
+				fn = e.w.findFunc(name[:d], name[d+1:])
+			} else {
+				for f := range e.w.AllFuncs {
+					if f.String() == name {
+						fn = f
+					}
+				}
+			}
+			if fn == nil {
+				env.fail(n, "unknown function %q", name)
+			}
+			var tag *Term
+			switch x.K {
+			case KFunc:
+				tag = x.Tag
+			case KIface:
+				// boxed function value: the box class follows from the function-typed implementers of the interface
+				var parts []*Term
+				for _, T := range e.w.funcTypedImplementers(x.Typ) {
+					cl := "box:" + typeKey(T) + "#fn"
+					srt := Arr(RefS, IntS)
+					parts = append(parts, c.And(c.Eq(x.Tag, c.Int(int64(e.w.typeTag(T)))), c.Eq(c.Select(e.get(env.state(), cl, srt), x.T), e.fnTag(fn))))
+				}
+				return env.mkBool(c.Or(parts...))
+			default:
+				env.fail(n, "holdsFunc on unsupported value")
+			}
+			return env.mkBool(c.Eq(tag, e.fnTag(fn)))
+		},
 		"samebase": func(env *Env, n *ast.CallExpr, args []*SVal) *SVal {
 			c := env.e.c
 			return env.mkBool(c.And(c.Eq(args[0].Base, args[1].Base), c.Eq(args[0].Off, args[1].Off)))
@@ -1245,6 +1307,10 @@ func (w *World) implementers(it types.Type, m *types.Func) []types.Type {
 	if !isNamed || nt.Obj().Pkg() == nil || !strings.HasPrefix(nt.Obj().Pkg().Path(), modPath) {
 		return nil
 	}
+	// ... and not for the user-facing API interfaces (Session, Connection, ...), which callers implement too
+	if pp := nt.Obj().Pkg().Path(); pp == modPath || strings.HasSuffix(pp, "/pkg/dcmi") || strings.HasSuffix(pp, "/transport") {
+		return nil
+	}
 	w.mu.Lock()
 	defer w.mu.Unlock()
 	key := it.String()
@@ -1315,7 +1381,8 @@ func (w *World) funcCandidates(sig *types.Signature) []*ssa.Function {
 	}
 	var out []*ssa.Function
 	for f := range w.addrTaken {
-		if f.Pkg != nil && strings.HasPrefix(f.Pkg.Pkg.Path(), modPath) && types.Identical(f.Signature, sig) {
+		// functions (of the module or of dependencies) whose value is taken somewhere in the module
+		if f.Pkg != nil && types.Identical(f.Signature, sig) {
 			out = append(out, f)
 		}
 	}
@@ -1376,7 +1443,7 @@ func (e *Encoder) dispatchInvoke(fr *frame, recv *SVal, impls []types.Type, m *t
 			rv = &SVal{K: KPtr, Typ: T, T: recv.T}
 			e.assume(c.Not(c.Eq(recv.T, c.NilRef()))) // a non-nil interface value of the module's own types never wraps a nil pointer
 		} else {
-			rv = e.load(e.cur, e.cellAddr(recv.T, T))
+			rv = e.load(e.cur, e.boxAddr(recv.T, T))
 		}
 		as := append([]*SVal{rv}, args...)
 		return e.callStatic(fr, callee, as, nil, ci, resT)
@@ -1611,7 +1678,7 @@ func (e *Encoder) smallBound(n *Term, limit int) (int, bool) {
 }
 
 // atCall evaluates the contract's "at <callee> assert" clauses at a matching call.
-func (e *Encoder) atCall(fr *frame, cm *ssa.CallCommon, ci ssa.CallInstruction) {
+func (e *Encoder) atCall(fr *frame, cm *ssa.CallCommon, ci ssa.CallInstruction, args []*SVal) {
 	name := ""
 	switch {
 	case cm.IsInvoke():
@@ -1626,6 +1693,10 @@ func (e *Encoder) atCall(fr *frame, cm *ssa.CallCommon, ci ssa.CallInstruction) 
 			continue
 		}
 		env := e.contractEnv(fr, e.contract, nil, e.cur, e.entry)
+		env.callArgs = args
+		if cm.IsInvoke() {
+			env.callArgs = append([]*SVal{e.val(fr, cm.Value)}, args...)
+		}
 		t := env.trClause(cl)
 		tag := cl.Tag
 		if tag == "" {
@@ -1635,6 +1706,7 @@ func (e *Encoder) atCall(fr *frame, cm *ssa.CallCommon, ci ssa.CallInstruction) 
 		if o != nil {
 			o.Props = propsOfTag(cl.Tag, e.contract.Props)
 		}
+		e.assume(t)
 	}
 }
 
@@ -1687,4 +1759,111 @@ func (e *Encoder) pureGetter(key string, recv *SVal, resT types.Type) *SVal {
 	}
 	_ = mk
 	return build(resT, "")
+}
+
+// restoreReceiver: an unmodelled callee can only modify memory reachable from
+// its arguments. The receiver of the function under verification is not
+// reachable from a pointer to one of its fields, so its other fields keep
+// their values (stated assumption: the receiver is not aliased elsewhere).
+func (e *Encoder) restoreReceiver(fr *frame, pre *State, args []*SVal) {
+	top := e.topFrame
+	if top == nil || top.fn.Signature.Recv() == nil || len(top.fn.Params) == 0 {
+		return
+	}
+	recv := top.vals[top.fn.Params[0]]
+	if recv == nil || recv.K != KPtr {
+		return
+	}
+	pt, ok := recv.Typ.Underlying().(*types.Pointer)
+	if !ok {
+		return
+	}
+	st, ok := pt.Elem().Underlying().(*types.Struct)
+	if !ok {
+		return
+	}
+	// the receiver itself must not be an argument
+	for _, a := range args {
+		if a != nil && (a.K == KPtr || a.K == KIface) && a.T == recv.T {
+			return
+		}
+	}
+	e.trusted["an unmodelled callee modifies only memory reachable from its arguments; fields of the receiver whose address is not passed keep their values"] = true
+	passed := func(ref *Term) bool {
+		for _, a := range args {
+			if a == nil {
+				continue
+			}
+			var t *Term
+			switch a.K {
+			case KPtr:
+				t = a.T
+				if a.Addr != nil {
+					t = a.Addr.Ref
+				}
+			case KIface:
+				t = a.T
+			case KSlice:
+				t = a.Base
+			}
+			if t != nil && (refDescends(t, ref) || refDescends(ref, t)) {
+				return true
+			}
+		}
+		return false
+	}
+	var walk func(ref *Term, t types.Type, depth int)
+	walk = func(ref *Term, t types.Type, depth int) {
+		s, ok := t.Underlying().(*types.Struct)
+		if !ok || depth > 4 {
+			return
+		}
+		for i := 0; i < s.NumFields(); i++ {
+			a := e.fieldAddr(ref, t, i)
+			if passed(a.Ref) {
+				continue
+			}
+			if _, isStruct := a.Typ.Underlying().(*types.Struct); isStruct {
+				walk(a.Ref, a.Typ, depth+1)
+				continue
+			}
+			if isAggregate(a.Typ) {
+				continue
+			}
+			for _, cp := range leafComps(a.Typ) {
+				cl := a.Prefix + cp.suffix
+				old := e.get(pre, cl, Arr(RefS, cp.sort))
+				cur := e.get(e.cur, cl, Arr(RefS, cp.sort))
+				e.set(e.cur, cl, e.c.Store(cur, a.Idx, e.c.Select(old, a.Idx)))
+			}
+		}
+	}
+	_ = st
+	walk(recv.T, pt.Elem(), 0)
+}
+
+// funcTypedImplementers: named function types of the module that implement the interface.
+func (w *World) funcTypedImplementers(it types.Type) []types.Type {
+	iface, ok := it.Underlying().(*types.Interface)
+	if !ok {
+		return nil
+	}
+	var out []types.Type
+	for path, p := range w.Pkgs {
+		if !strings.HasPrefix(path, modPath) {
+			continue
+		}
+		sc := p.Types.Scope()
+		for _, n := range sc.Names() {
+			tn, ok := sc.Lookup(n).(*types.TypeName)
+			if !ok || tn.IsAlias() {
+				continue
+			}
+			if _, isSig := tn.Type().Underlying().(*types.Signature); isSig && types.Implements(tn.Type(), iface) {
+				out = append(out, tn.Type())
+			}
+		}
+	}
+	sort.Slice(out, func(i, j int) bool { return out[i].String() < out[j].String() })
+	return out
 }
